@@ -424,6 +424,13 @@ func (e *engine) verify(fc *funcContract, props []string) *vc {
 	v.cover(st, "requires", "true")
 	v.runBody(fr, st)
 	v.checkDirectiveSites(fn, fc)
+	if len(fr.results) > 0 {
+		for _, e := range fc.ensures {
+			if !v.ensuresEvaluated[e.label] {
+				v.errs = append(v.errs, fmt.Sprintf("postcondition %s is evaluated at no return (a local it names is in scope at none)", e.label))
+			}
+		}
+	}
 	if len(fr.results) == 0 && !fc.panicsOK {
 		v.note("function has no reachable return")
 	}
@@ -450,7 +457,20 @@ func (v *vc) atReturn(fr *frame, st *state, vals []string, k int) {
 	// parameters keep their entry values in postconditions; other locals mean their value at this return
 	se.localsAt = v.retBlock
 	for _, e := range fc.ensures {
+		se.outOfScopeOK, se.outOfScope = true, false
+		nerr := len(v.errs)
 		t := se.evalGoal(e.expr)
+		se.outOfScopeOK = false
+		if se.outOfScope {
+			// the clause names a local that is declared after this return: it says nothing here
+			v.errs = v.errs[:nerr]
+			v.note("postcondition %s is not evaluated at %s: it names a local that is not in scope there", e.label, site)
+			continue
+		}
+		if v.ensuresEvaluated == nil {
+			v.ensuresEvaluated = map[string]bool{}
+		}
+		v.ensuresEvaluated[e.label] = true
 		v.oblige(st, "ensures", e.label, site, t, e.props)
 	}
 	if fc.hasMod {
